@@ -97,6 +97,45 @@ def curated():
     return K
 
 
+def curated_gen():
+    """operator boundary cases for the generated lexer (supported class only; ids G*)"""
+    G = []
+    add = lambda rules: G.append({"id": "G%d" % len(G), "rules": rules})
+    P = lambda i, pat, **kw: named("T%d" % i, pat, kw.get("act", ""), kw.get("state", ""))
+    add({"Root": [P(0, "."), P(1, "\\n")]})                                   # dot at end of input
+    add({"Root": [P(0, "(?s).")]})
+    add({"Root": [P(0, "a."), P(1, "(?s)."), ]})
+    add({"Root": [P(0, "é"), P(1, "(?s).")]})                                 # multi-byte literal
+    add({"Root": [P(0, "éa"), P(1, "aé"), P(2, "(?s).")]})
+    add({"Root": [P(0, "(?i)ab"), P(1, "(?s).")]})                             # fold-case literals
+    add({"Root": [P(0, "(?i)é"), P(1, "(?i)aé"), P(2, "(?s).")]})
+    add({"Root": [P(0, "[é-ë]+"), P(1, "[^a]"), P(2, "a")]})                 # multi-byte classes
+    add({"Root": [P(0, "a"), named("ws", "\\s+"), P(2, "[^a\\s]")]})          # elided rules
+    add({"Root": [named("comment", "cb*"), P(1, "[a-c]"), named("nl", "\\n")]})
+    add({"Root": [P(0, "^a"), P(1, "a"), P(2, "(?s).")]})                       # anchors see only the remaining input
+    add({"Root": [P(0, "\\Aa"), P(1, "(?m)^b"), P(2, "(?s).")]})
+    add({"Root": [P(0, "\\ba"), P(1, "a\\b"), P(2, "(?s).")]})                 # word boundaries
+    add({"Root": [P(0, "a\\B"), P(1, "\\Ba"), P(2, "(?s).")]})
+    add({"Root": [P(0, "a$"), P(1, "(?m)a$"), P(2, "(?s).")]})
+    add({"Root": [P(0, "a|ab"), P(1, "(?s).")]})                                # Simplify factors the common prefix (EmptyMatch)
+    add({"Root": [P(0, "ab|a"), P(1, "(?s).")]})
+    add({"Root": [P(0, "abc|abd|a"), P(1, "(?s).")]})
+    add({"Root": [P(0, "a{2,3}"), P(1, "a"), P(2, "(?s).")]})                   # counted repetition
+    add({"Root": [P(0, "(a|b)+c?"), P(1, "(?s).")]})
+    add({"Root": [P(0, "(a)(b)?"), P(1, "(?s).")]})                             # captures
+    add({"Root": [P(0, "a*b"), P(1, "a+"), P(2, "(?s).")]})                     # possessive vs backtracking
+    add({"Root": [P(0, "[ab]*b"), P(1, "(?s).")]})
+    add({"Root": [P(0, "\\(", act="push", state="S1"), P(1, "a"), named("ws", "\\s+")],
+         "S1": [P(2, "\\)", act="pop"), P(0, "\\(", act="push", state="S1"), P(3, "b"), named("ws", "\\s+")]})
+    add({"Root": [P(0, "a", act="push", state="S1"), P(1, "[a-c]")], "S1": [P(2, "b"), RET]})
+    add({"Root": [inc("S1"), P(0, "a"), P(1, "ab")], "S1": [P(1, "ab"), P(2, "b")]})
+    add({"Root": [P(0, "\\)", act="pop"), P(1, "a")]})                          # pop in Root
+    add({"Root": [P(0, "a"), RET]})                                             # return in Root
+    add({"Root": [P(0, "[^\\n]+"), P(1, "\\n")]})
+    add({"Root": [P(0, "\\w+"), P(1, "\\s"), P(2, "[[:punct:]]")]})
+    return G
+
+
 def random_map(rng, gid, supported_only=False):
     nstates = rng.choice([1, 2, 2, 3])
     states = ["Root", "S1", "S2"][:nstates]
@@ -130,7 +169,7 @@ def random_map(rng, gid, supported_only=False):
 
 def family(seed, nrandom, supported_only=False):
     rng = random.Random(seed)
-    cases = [] if supported_only else curated()
+    cases = curated_gen() if supported_only else curated()
     cases += [random_map(rng, "R%d" % i, supported_only) for i in range(nrandom)]
     return cases
 
